@@ -27,6 +27,7 @@ import (
 	"os"
 	"path/filepath"
 	"strconv"
+	"strings"
 
 	zygo "github.com/glycerine/zygomys/v9/zygo"
 )
@@ -53,8 +54,9 @@ func (d *codecDriver) prCase(id string, g *gval, lab string) map[string]any {
 	}
 	c["v"] = cproj(d.env, v, 0)
 	c["cc"] = ccOfProj(c["v"])
-	c["rdj"] = !g.hasKind("hash")
-	c["evj"] = !g.hasKind("chr", "sym", "list")
+	// which halves speak about the value, from the value itself (a recipe may be a script expression)
+	c["rdj"] = !projHasTag(c["v"], "hash")
+	c["evj"] = !projHasTag(c["v"], "chr", "sym", "list", "dotted")
 	text, ok := d.printed(v)
 	c["text"] = trunc(strconv.QuoteToASCII(text), 400)
 	c["printed"] = ok
@@ -71,7 +73,7 @@ func (d *codecDriver) prCase(id string, g *gval, lab string) map[string]any {
 	// save / source through a file: only a hash is written as one datum by `save`
 	c["svj"] = false
 	c["sv"] = []any{"skipped"}
-	if c["evj"].(bool) && g.K == "hash" {
+	if _, isHash := v.(*zygo.SexpHash); c["evj"].(bool) && isHash {
 		path := filepath.Join(os.TempDir(), fmt.Sprintf("zv-printread-%d.zy", os.Getpid()))
 		os.Remove(path)
 		d.reset()
@@ -86,6 +88,37 @@ func (d *codecDriver) prCase(id string, g *gval, lab string) map[string]any {
 		os.Remove(path)
 	}
 	return c
+}
+
+// projHasTag reports whether a projected value contains a sub-value (hash keys excluded) with one of the tags.
+func projHasTag(p any, tags ...string) bool {
+	t, ok := p.([]any)
+	if !ok || len(t) == 0 {
+		return false
+	}
+	tag, _ := t[0].(string)
+	for _, x := range tags {
+		if tag == x {
+			return true
+		}
+	}
+	switch tag {
+	case "list", "arr":
+		for _, e := range t[1].([]any) {
+			if projHasTag(e, tags...) {
+				return true
+			}
+		}
+	case "dotted":
+		return true
+	case "hash":
+		for _, kv := range t[2].([]any) {
+			if projHasTag(kv.([]any)[1], tags...) {
+				return true
+			}
+		}
+	}
+	return false
 }
 
 func (d *codecDriver) prClsCase(id, cls, m, ctx string) map[string]any {
@@ -147,18 +180,37 @@ func roundingInterval(g float64) map[string]any {
 	}
 }
 
-func (d *codecDriver) litCase(id, sp string) map[string]any {
-	c := map[string]any{"id": id, "kind": "lit", "sp": cpsOf(sp), "text": sp, "recipe": gStr(sp).json()}
+// litContexts: where a literal stands.  "" = between spaces; a reader prefix (the datum is then
+// wrapped in a two-element list headed by the prefix's symbol); "tight" = directly inside brackets.
+var litContexts = []string{"", "%", "^", "~", "~@", "tight"}
+
+func (d *codecDriver) litCase(id, sp, pre string) map[string]any {
+	c := map[string]any{"id": id, "kind": "lit", "sp": cpsOf(sp), "text": sp, "pre": pre, "recipe": gStr(sp).json()}
+	text := "[ " + pre + sp + " ]\n"
+	if pre == "tight" {
+		text = "[" + sp + "]\n"
+	}
 	d.reset()
-	d.env.AddGlobal("s", &zygo.SexpStr{S: sp})
-	o := evalSafe(d.env, "(read (concat \"[ \" s \" ]\\n\"))\n")
+	d.env.AddGlobal("s", &zygo.SexpStr{S: text})
+	o := evalSafe(d.env, "(read s)\n")
 	c["n"] = 0
+	c["wrap"] = []int{}
 	c["got"] = cprojOutcome(d.env, o)
 	if arr, ok := o.Val.(*zygo.SexpArray); o.Kind == "val" && ok {
 		c["n"] = len(arr.Val)
 		if len(arr.Val) >= 1 {
-			c["got"] = cproj(d.env, arr.Val[0], 0)
-			if f, ok := arr.Val[0].(*zygo.SexpFloat); ok && !math.IsNaN(f.Val) && !math.IsInf(f.Val, 0) {
+			x := arr.Val[0]
+			// a two-element list headed by a symbol: report the head and judge the second element
+			if p, ok := x.(*zygo.SexpPair); ok {
+				if h, ok := p.Head.(*zygo.SexpSymbol); ok {
+					if q, ok := p.Tail.(*zygo.SexpPair); ok && q.Tail == zygo.SexpNull {
+						c["wrap"] = cpsOf(h.Name())
+						x = q.Head
+					}
+				}
+			}
+			c["got"] = cproj(d.env, x, 0)
+			if f, ok := x.(*zygo.SexpFloat); ok && !math.IsNaN(f.Val) && !math.IsInf(f.Val, 0) {
 				c["iv"] = roundingInterval(f.Val)
 			}
 		} else {
@@ -172,6 +224,91 @@ func (d *codecDriver) litCase(id, sp string) map[string]any {
 		c["ovf"] = ovfThreshold
 	}
 	return c
+}
+
+// ---- quoted literal spellings: character and string literals written with every escape form
+
+type qtok struct {
+	form string // raw esc x2 u4 U8
+	v    int
+}
+
+func (t qtok) text(r *rng) string {
+	hex := func(n int) string {
+		h := fmt.Sprintf("%0*x", n, t.v)
+		if r != nil && r.intn(3) == 0 {
+			h = strings.ToUpper(h)
+		}
+		return h
+	}
+	switch t.form {
+	case "esc":
+		return "\\" + string(rune(t.v))
+	case "x2":
+		return "\\x" + hex(2)
+	case "u4":
+		return "\\u" + hex(4)
+	case "U8":
+		return "\\U" + hex(8)
+	}
+	return string(rune(t.v))
+}
+
+func (d *codecDriver) qlitCase(id, ctx string, toks []qtok, r *rng) map[string]any {
+	q := "\""
+	if ctx == "chr" {
+		q = "'"
+	}
+	text := q
+	tl := []any{}
+	for _, t := range toks {
+		text += t.text(r)
+		tl = append(tl, []any{t.form, t.v})
+	}
+	text += q
+	return d.qlitText(id, ctx, text, tl)
+}
+
+func (d *codecDriver) qlitText(id, ctx, text string, toks []any) map[string]any {
+	c := map[string]any{"id": id, "kind": "qlit", "ctx": ctx, "toks": toks, "text": trunc(strconv.QuoteToASCII(text), 200),
+		"recipe": gStr(text).json()}
+	d.reset()
+	d.env.AddGlobal("s", &zygo.SexpStr{S: " " + text + "\n"})
+	c["rd"] = cprojOutcome(d.env, evalSafe(d.env, "(read s)\n"))
+	return c
+}
+
+// qlitTokens: the escape tokens worth writing in a literal of the given context
+func qlitTokens(ctx string, r *rng, nrand int) []qtok {
+	ts := []qtok{}
+	for _, l := range "nrtabfv\\'\"#" {
+		ts = append(ts, qtok{"esc", int(l)})
+	}
+	for _, l := range "0eNsxz/ " { // letters that are no escape
+		ts = append(ts, qtok{"esc", int(l)})
+	}
+	for v := 0; v < 256; v++ {
+		ts = append(ts, qtok{"x2", v})
+	}
+	for _, v := range []int{0, 0x7f, 0x80, 0xff, 0x100, 0x7ff, 0x800, 0x2028, 0xd7ff, 0xd800, 0xdbff, 0xdc00, 0xdfff, 0xe000, 0xfeff, 0xfffd, 0xfffe, 0xffff} {
+		ts = append(ts, qtok{"u4", v})
+	}
+	for _, v := range []int{0, 0x41, 0xe9, 0xffff, 0x10000, 0x1f600, 0xd800, 0xe0001, 0x10ffff, 0x110000, 0x7fffffff} {
+		ts = append(ts, qtok{"U8", v})
+	}
+	for i := 0; i < nrand; i++ {
+		ts = append(ts, qtok{"u4", r.intn(0x10000)}, qtok{"U8", r.intn(0x110000)})
+	}
+	for _, cls := range codecClasses {
+		ms := classBoundary[cls]
+		if cls == "invalid" || cls == "backslash" || (ctx == "chr" && cls == "squote") || (ctx == "str" && cls == "dquote") {
+			continue
+		}
+		for _, m := range ms {
+			ts = append(ts, qtok{"raw", int([]rune(m)[0])})
+		}
+	}
+	return ts
 }
 
 var litAlphabet = []string{"0", "1", "7", "9", "a", "F", "_", "x", "o", "b", ".", "e", "E", "-", "+", "ULL", "Inf", "NaN"}
@@ -256,6 +393,10 @@ func init() {
 		scalars = append(scalars, stringMembers(r1, nt, true)...)
 		scalars = append(scalars, cdMember{gExpr("`back\"tick\\n and 'more'`"), "str-backtick"}, cdMember{gExpr("`line1\nline2`"), "str-backtick"})
 		jsonScalars := append([]cdMember(nil), scalars...)
+		// data the reader itself makes from its prefix shorthands: (quote a) (syntaxQuote a) (unquote a) (unquote-splicing a)
+		for _, t := range []string{"(quote %a)", "(quote ^a)", "(quote ~a)", "(quote ~@a)", "(quote (a ~@b))", "(quote [~@a 1])", "(quote ^(a ~b ~@c))", "(quote %-5)"} {
+			scalars = append(scalars, cdMember{gExpr(t), "reader-shorthand"})
+		}
 		for _, cls := range codecClasses[:len(codecClasses)-1] {
 			for _, m := range classBoundary[cls] {
 				scalars = append(scalars, cdMember{gChr([]rune(m)[0]), "chr-" + cls})
@@ -329,6 +470,13 @@ func init() {
 				emit("k", gHash("hash", []gkey{{N: []byte("a")}, {Str: true, N: []byte(kn)}}, gInt(0), val), "strkey")
 			}
 		}
+		// (c2) hashes with SYMBOL keys named by arbitrary JSON member names: what (unjson ...) returns
+		for _, kn := range []string{"a", "my-key", "content-type", "a b", "1", "9a", "", "b.c", "\u00e9", "k:v", "x(y", "q\"r", "nil", "true", "-", "a_b", "A1", "k\n", "a,b", "~a", "#h", "a*", "\U0001f600"} {
+			k := gkey{Raw: true, N: []byte(kn)}
+			emit("j", gHash("hash", []gkey{k}, gInt(1)), "symkey")
+			emit("j", gHash("hash", []gkey{{N: []byte("a0")}, k}, gInt(0), gArr(gStr("s"))), "symkey")
+			emit("j", gArr(gHash("hash", symKeys("m"), gHash("hash", []gkey{k}, gNil()))), "symkey")
+		}
 		// (d) seeded random nested values to depth 3
 		n := c.n
 		if n == 0 {
@@ -350,14 +498,16 @@ func init() {
 		}
 		// (e) numeric literal spellings: every string over the alphabet up to a
 		// length bound, seeded longer ones, and the directed list
-		lit := func(sp string) {
+		lit := func(sp, pre string) {
 			if mine(idx) {
-				w.write(d.litCase(fmt.Sprintf("l%d", idx), sp))
+				w.write(d.litCase(fmt.Sprintf("l%d", idx), sp, pre))
 			}
 			idx++
 		}
 		for _, sp := range litDirected {
-			lit(sp)
+			for _, pre := range litContexts {
+				lit(sp, pre)
+			}
 		}
 		full := 3
 		nlong := 3000
@@ -367,7 +517,12 @@ func init() {
 		var rec func(prefix string, k int)
 		rec = func(prefix string, k int) {
 			if prefix != "" {
-				lit(prefix)
+				lit(prefix, "")
+				if k <= 2 && (prefix[0] == '-' || prefix[0] == '.' || (prefix[0] >= '0' && prefix[0] <= '9')) {
+					for _, pre := range litContexts[1:] {
+						lit(prefix, pre)
+					}
+				}
 			}
 			if k == full {
 				return
@@ -380,7 +535,7 @@ func init() {
 		rl := newRng(c.seed, 23)
 		for i := 0; i < nlong; i++ {
 			if i%4 != 0 {
-				lit(randLiteral(rl)) // drawn from the grammar (and its edges)
+				lit(randLiteral(rl), litContexts[rl.intn(len(litContexts))]) // drawn from the grammar (and its edges)
 				continue
 			}
 			k := full + 1 + rl.intn(4)
@@ -393,7 +548,43 @@ func init() {
 					sp += pick(rl, litAlphabet)
 				}
 			}
-			lit(sp)
+			lit(sp, "")
+		}
+		// (f) character and string literals written with every escape form: each token alone,
+		// and seeded sequences of up to three tokens in a string
+		rq := newRng(c.seed, 24)
+		nq := 20
+		if c.thorough() {
+			nq = 400
+		}
+		qlit := func(ctx string, toks []qtok) {
+			if mine(idx) {
+				w.write(d.qlitCase(fmt.Sprintf("q%d", idx), ctx, toks, newRng(c.seed, uint64(5000+idx))))
+			}
+			idx++
+		}
+		for _, ctx := range []string{"chr", "str"} {
+			ts := qlitTokens(ctx, rq, nq)
+			for _, t := range ts {
+				qlit(ctx, []qtok{t})
+			}
+			if ctx == "str" {
+				for i := 0; i < 40*nq; i++ {
+					k := 2 + rq.intn(2)
+					seq := []qtok{}
+					for j := 0; j < k; j++ {
+						seq = append(seq, ts[rq.intn(len(ts))])
+					}
+					qlit(ctx, seq)
+				}
+			}
+		}
+		// malformed character literals: two runes, nothing, an escape and a rune
+		for _, text := range []string{"'\\\\n'", "'ab'", "''", "'\\na'", "'\\x4'", "'\\u00e'", "'\\x411'"} {
+			if mine(idx) {
+				w.write(d.qlitText(fmt.Sprintf("q%d", idx), "chr", text, []any{[]any{"malformed", 0}}))
+			}
+			idx++
 		}
 		return 0
 	})
@@ -520,6 +711,8 @@ func printreadReplay(d *codecDriver, c *common, w *ndWriter) int {
 			Cls    string `json:"cls"`
 			Ctx    string `json:"ctx"`
 			Lab    string `json:"lab"`
+			Pre    string `json:"pre"`
+			Toks   []any  `json:"toks"`
 			Recipe string `json:"recipe"`
 		}
 		if err := json.Unmarshal(line, &in); err != nil {
@@ -537,7 +730,9 @@ func printreadReplay(d *codecDriver, c *common, w *ndWriter) int {
 			}
 			w.write(d.prClsCase(in.ID, in.Cls, m, in.Ctx))
 		case "lit":
-			w.write(d.litCase(in.ID, string(g.S)))
+			w.write(d.litCase(in.ID, string(g.S), in.Pre))
+		case "qlit":
+			w.write(d.qlitText(in.ID, in.Ctx, string(g.S), in.Toks))
 		default:
 			w.write(d.prCase(in.ID, &g, in.Lab))
 		}
